@@ -324,6 +324,9 @@ def binding_demo_crash(run, files, checked):
     raise vlib.Inconclusive("binding demo: no probe found to corrupt")
 
 
+OPCLASS = (("closedb", "close"), ("cleanreopen", "reopen"), ("checkpoint", "ckpt"))
+
+
 def stats(files, checked):
     """count checked events and distinct non-trivial traces"""
     evals = 0
@@ -336,9 +339,15 @@ def stats(files, checked):
                 i = l.find('"cls":"') + 7
                 if l[i:l.find('"', i)] in checked:
                     n += 1
+            else:
+                # class-less events that a class of Checked asserts
+                for op, cls in OPCLASS:
+                    if cls in checked and ('"op":"%s"' % op) in l:
+                        n += 1
             h.update(l.encode())
         evals += n
-        if n >= 3:
+        # (C47 has two evaluations per trace: the Close and the reopened state)
+        if n >= (2 if "close" in checked else 3):
             distinct.add(h.hexdigest())
     return evals, len(distinct)
 
